@@ -43,8 +43,13 @@ func ackSoundness(c *core.Ctx, e *scen.Engine, s *scen.Sent, n *world.Node, r *w
 	if _, isAck := s.Msg.(*packettypes.MsgAcknowledgement); !isAck {
 		return
 	}
-	if !r.OK() || world.CountEvents(r.Events, packettypes.EventTypeAcknowledgePacket) == 0 {
+	// the verdict is the model's: any successful MsgAcknowledgement counts as "processed",
+	// whatever events it emitted
+	if !r.OK() {
 		return
+	}
+	if world.CountEvents(r.Events, packettypes.EventTypeAcknowledgePacket) == 0 {
+		c.W.Stats.Inc("probe-ack-ok-without-ack-event")
 	}
 	p, a, h, _ := scen.SentPacket(s)
 	k := model.KeyOf(p)
@@ -151,6 +156,7 @@ func runC03(c *core.Ctx, crashes bool) {
 	w.Observers = append(w.Observers, &ackImmutable{c, e})
 	uni := scen.DefaultUniverse()
 	uni.BadReceiverPct = 30
+	uni.UnknownDestPct = 6
 	e.SeedTokens(uni, 3)
 	muts := 0
 	e.OnRelayTx = func(s *scen.Sent, n *world.Node, r *world.TxResult, before map[string]string) {
